@@ -37,7 +37,9 @@ def render_types(tys):
 SYM_CHARS = 'abcxyz019-_.+*!?@$%&=<>|[]{};\'`,^#' + SC['eacute'] + SC['cjk'] + SC['cyr'] + SC['nbsp'] + SC['isp'] + SC['Eacute']
 STR_CHARS = 'abc XYZ019()/:~#,^.-\'' + SC['eacute'] + SC['cjk'] + SC['nbsp'] + SC['ls'] + SC['nel'] + SC['tab'] + SC['isp']
 VARS = ['a', 'b', 'c', 'd', 'e', 'x', 'y', 'z', 'a2', 'b10', 'n1', 'x0', '_', '_2', 'v1', 'i', 'go']
-CONCEPTS = ['alpha', 'bark-01', 'dog', 'A', 'a', 'b', 'x', '"str"', 'have-mod-91', 'i', '-', '1', 'Ünï', SC['cjk'] + 'x', '_p_n_1']
+# ('cafe' + U+0301: a symbol that is not in Unicode normal form C - the notation does not normalise)
+CONCEPTS = ['alpha', 'bark-01', 'dog', 'A', 'a', 'b', 'x', '"str"', 'have-mod-91', 'i', '-', '1', 'Ünï', SC['cjk'] + 'x', '_p_n_1', 'cafe\u0301',
+            'A\u030a']
 ROLES = [':ARG0', ':ARG1', ':ARG2', ':op1', ':op2', ':op10', ':mod', ':domain', ':polarity', ':quant', ':r', ':R', ':S',
          ':consist-of', ':prep-on-behalf-of', ':', ':x-y', ':snt1', ':name', ':wiki', ':accompanier', ':time']
 
@@ -76,7 +78,8 @@ def rand_string_const(rng, maxlen=8):
 
 def rand_alignment(rng):
     pre = rng.choice(['', '', 'e.', 'e', 'E.', 'x', 'Z.'])
-    idx = ','.join(str(rng.choice([0, 1, 2, 5, 10, 12, 7])) for _ in range(rng.choice([1, 1, 1, 2, 3])))
+    # (now and then an index with a leading zero: "~e.07" reads as 7, O9)
+    idx = ','.join(rng.choice(['0', '1', '2', '5', '10', '12', '7'] * 5 + ['07', '00']) for _ in range(rng.choice([1, 1, 1, 2, 3])))
     return '~' + pre + idx
 
 
